@@ -366,6 +366,21 @@ def check_as_image(prog, rep, DATA):
         rng = find(d, ("agg", "*Range::Range", (C(0), "?end"))) or find(d, ("agg", "*RangeTo::RangeTo", ("?end",)))   # 0..n or ..n
         good = bool(rng) and any(n == self_data for n in walk(d)) and isinstance(rng[0][1]["?end"][1], str) and "BUFFER_SIZE" in rng[0][1]["?end"][1]
         sz = fold(s)
+        if sz[0] == "const" and isinstance(sz[1], str) and "<" in sz[1]:
+            # a named constant of the framebuffer (`Self::SIZE`): its initialiser is the value
+            cpath = sz[1]
+            if cpath.endswith(">"):
+                depth = 0
+                for k_ in range(len(cpath) - 1, -1, -1):
+                    depth += cpath[k_] == ">"
+                    depth -= cpath[k_] == "<"
+                    if depth == 0:
+                        cpath = cpath[:k_]
+                        break
+            cs = [g for g in prog.by_path.get(cpath, []) if g.body and g.kind in ("assoc_const", "const")]
+            if len(cs) == 1:
+                from mirq.pat import strip_refs as _sr
+                sz = fold(_sr(Origins(cs[0]).return_origin()))
         good_sz = match(sz, ("call", "*Size::new", "_", (C("WIDTH"), C("HEIGHT")))) is not None
         rep.check(good_sz, "R10.4", "as_image:size", "as_image must use Size::new(WIDTH, HEIGHT); found %s" % show(sz), at=f.span, fn=f.path)
     rep.check(good, "R10.4", "as_image:data", "as_image must view self.data[0..BUFFER_SIZE]; found %s" % show(d if d else ret), at=f.span, fn=f.path)
